@@ -182,6 +182,25 @@ fn main() {
         jobs.par_iter().map(|sc| { let mut st = Stats::default(); st.inc("timestamp_pattern_schemas"); for (name, v) in &tvars { judge(&ctx, sc, name, v, &mut st); } st }).reduce(Stats::default, Stats::merge)
     };
 
+    // custom variable paths: keys with '/', '~', digits and dots-as-nesting, paths that run into arrays, objects or nothing
+    // (unset), each in every placement
+    let s_paths = {
+        use RComp::{Str, Var as V};
+        let custom = json!({"k": "v1", "a/b": 77, "p": {"q/r": "s", "t~0u": 5, "deep": {"er": "z", "n": 0}, "": "emptykey"}, "tags": ["nightly", "x"], "x~1y": "tilde", "0": "zero", "arr": {"0": "objzero"}, "sp ace": "w", "é": "acc", "nul": null, "-": "dash"});
+        let vars = vec![("custom_paths", RVars { major: Some(1), minor: Some(2), patch: Some(3), custom, ..Default::default() })];
+        let keys = ["k", "a/b", "p.q/r", "p.t~0u", "p.deep.er", "p.deep.n", "tags.0", "tags", "p", "p.deep", "x~1y", "0", "arr.0", "sp ace", "é", "nul", "-", "missing", "missing.k", "k.v1", "a", "p.q", "tags.nightly", "/k", "k/", "p/deep/er", "~0", "p.", ".p"];
+        let base = vec![V(RVar::Major), V(RVar::Minor), V(RVar::Patch)];
+        let mut jobs: Vec<RSchema> = vec![];
+        for k in keys {
+            let w = V(RVar::Custom(k.to_string()));
+            jobs.push(RSchema { core: base.clone(), extra_core: vec![], build: vec![Str("b".into()), w.clone()] });
+            jobs.push(RSchema { core: base.clone(), extra_core: vec![w.clone()], build: vec![] });
+            jobs.push(RSchema { core: [base.clone(), vec![w.clone()]].concat(), extra_core: vec![], build: vec![] });
+            jobs.push(RSchema { core: vec![w.clone(), V(RVar::Minor)], extra_core: vec![w.clone()], build: vec![w.clone()] });
+        }
+        jobs.par_iter().map(|sc| { let mut st = Stats::default(); st.inc("custom_path_schemas"); for (name, v) in &vars { judge(&ctx, sc, name, v, &mut st); } st }).reduce(Stats::default, Stats::merge)
+    };
+
     // smart preset tiers
     let mut s3 = Stats::default();
     for family in ["standard", "calver"] { for variant in ["", "no-context", "context"] {
@@ -259,14 +278,14 @@ fn main() {
     let (d2, _) = run_space(2, 1, 1);
     if d1.digest != d2.digest { machinery_error("determinism replay diverged"); }
 
-    let all = s1.clone().merge(s2.clone()).merge(s3.clone()).merge(s4.clone()).merge(s_wide).merge(s_ts);
+    let all = s1.clone().merge(s2.clone()).merge(s3.clone()).merge(s4.clone()).merge(s_wide).merge(s_ts).merge(s_paths);
     let mut cov = Coverage::default();
     cov.states = all.get("schemas") * asg.len() as u64 + s3.get("tier_cases");
     cov.transitions = all.get("conversions") + s3.get("tier_cli_runs");
     cov.evaluations = all.get("conversions") + s3.get("tier_cli_runs") + s3.get("tier_cases") + s4.get("cli_conformance_cases");
     cov.traces_validated = cov.evaluations;
     cov.distinct_nontrivial = all.get("schemas");
-    cov.rule = format!("valid schemas generated as programs: core sequences over {} components (Major/Minor/Patch order+uniqueness respected, uint/str literals incl. multi-identifier, empty and zero-padded ones, Distance, BumpedBranch, ts, custom), extra_core over {} (Epoch/PreRelease/Post/Dev once each, literals, Dirty, BumpedBranch), build over {}; bounds (core,extra,build) = {} product sizes {n1}+{n2}; each x {} variable assignments x 2 formats, SemVer::from / PEP440::from compared by full string equality with R-REN; the 16 timestamp patterns x 4 placements x 19 instants (New-Year days whose ISO week belongs to the other year, leap days, month ends, the epoch); smart presets: 6 presets x dirty x distance x pre x post x dev tier table at schema_with_zerv and through the CLI. non-trivial = distinct non-empty schemas", core_alpha.len(), extra_alpha.len(), build_alpha.len(), if quick { "(3,2,1)" } else { "(4,2,1) and (3,3,2)" }, asg.len());
+    cov.rule = format!("valid schemas generated as programs: core sequences over {} components (Major/Minor/Patch order+uniqueness respected, uint/str literals incl. multi-identifier, empty and zero-padded ones, Distance, BumpedBranch, ts, custom), extra_core over {} (Epoch/PreRelease/Post/Dev once each, literals, Dirty, BumpedBranch), build over {}; bounds (core,extra,build) = {} product sizes {n1}+{n2}; each x {} variable assignments x 2 formats, SemVer::from / PEP440::from compared by full string equality with R-REN; the 16 timestamp patterns x 4 placements x 19 instants (New-Year days whose ISO week belongs to the other year, leap days, month ends, the epoch); 29 custom-variable paths (keys with '/', '~', blanks, digits, non-ASCII; paths into arrays, objects, null and nothing) x 4 placements; smart presets: 6 presets x dirty x distance x pre x post x dev tier table at schema_with_zerv and through the CLI. non-trivial = distinct non-empty schemas", core_alpha.len(), extra_alpha.len(), build_alpha.len(), if quick { "(3,2,1)" } else { "(4,2,1) and (3,3,2)" }, asg.len());
     cov.exhaustive = true;
     cov.samples = vec![json!({"core":"Major,str(\"1.2\"),Patch","extra_core":"PreRelease,Dirty","build":"str(\"B-1\")","vars":"all_set"}), json!({"preset":"calver","dirty":false,"distance":0,"post":2}), json!({"core":"str(\"007\"),ts(YYYY)","extra_core":"Epoch","build":"","vars":"zeros"})];
     cov.set("clause_counts", all.to_json());
